@@ -7,6 +7,7 @@ import (
 	"time"
 
 	"github.com/oasisprotocol/oasis-core/go/common/logging"
+	"github.com/oasisprotocol/oasis-core/go/common/verifhook"
 	consensus "github.com/oasisprotocol/oasis-core/go/consensus/api"
 	"github.com/oasisprotocol/oasis-core/go/consensus/cometbft/config"
 	nodedb "github.com/oasisprotocol/oasis-core/go/storage/mkvs/db/api"
@@ -173,9 +174,11 @@ func (p *genericPruner) Prune(latestVersion uint64) error {
 
 	// Make sure to sync the underlying database before updating what can be discarded. Otherwise
 	// things can be pruned and in case of a crash replay will not be possible.
+	verifhook.At("abci.pruner.beforeSync")
 	if err := p.ndb.Sync(); err != nil {
 		return fmt.Errorf("failed to sync state database: %w", err)
 	}
+	verifhook.At("abci.pruner.afterSync")
 
 	// We can discard everything below the earliest version.
 	p.Lock()
